@@ -68,6 +68,10 @@ func scanMain() {
 		if order == "utf8" {
 			pats = []string{"*", "e*", "e?", "e[\U0001F600-\U0001F60F]", "e\U0001F601*", "?\U0001F602", "e\u00e9*"}
 		}
+		// literal patterns: the name of an element that exists (the first and a middle one) and one that does not
+		utf8Names = order == "utf8"
+		pats = append(pats, elemName(0), elemName(n/2), elemName(n+3))
+		utf8Names = false
 		for _, ps := range sizes {
 			for _, pat := range pats {
 				ty := 0
